@@ -26,7 +26,8 @@ def dySort (l : List (Int × Nat)) : List (Int × Nat) :=
 
 /-- numpy nan-reductions over the valid children values `vals` (with weights `ws` for wmean).
     `none` = NaN (becomes the sentinel). -/
-def reduceVals (red : String) (vals : List (Int × Nat)) (ws : List (Int × Nat)) : Option Val :=
+def reduceVals (red : String) (vals : List (Int × Nat)) (ws : List (Int × Nat))
+    (wden : List (Int × Nat) := ws) : Option Val :=
   let k := vals.length
   match red with
   | "sum"  => some (.ofDy (dySum vals))
@@ -60,7 +61,8 @@ def reduceVals (red : String) (vals : List (Int × Nat)) (ws : List (Int × Nat)
      | _ => some .poison)
   | "wmean" =>
     let sxw := dySum (List.zipWith dyMul vals ws)
-    let sw := dySum ws
+    -- `np.nansum(weights)`: the weights of ALL children (the weight array holds no NaN)
+    let sw := dySum wden
     if sw.1 == 0 then (if sxw.1 == 0 then none else some .poison)
     else
       -- (a/2^ea) / (b/2^eb) = a*2^eb / (b*2^ea)
@@ -117,7 +119,7 @@ def apiDegradeCore (m : MapObj) (ordOut : Nat) (red : String) (w : Option MapObj
       let ws := validCW.map fun p => wOf p.2
       let fields := (List.range fs.length).map fun i =>
         let vals := validCW.map fun p => match p.1 with | .recd l => l.getD i (0, 0) | _ => (0, 0)
-        match reduceVals red vals ws with
+        match reduceVals red vals ws (cw.map fun p => wOf p.2) with
         | none => some ((fsOut.getD i (.flt 64)).defaultSentinel.numD)
         | some (.num n e) => if (Val.num n e).fits (fsOut.getD i (.flt 64)) then some (n, e) else none
         | some _ => none
@@ -142,7 +144,8 @@ def apiDegradeCore (m : MapObj) (ordOut : Nat) (red : String) (w : Option MapObj
       let sentOut := dtOut.defaultSentinel
       let f : List (Val × Val) → Val := fun cw =>
         let validCW := cw.filter fun p => m.vc.valid p.1
-        match reduceVals red (validCW.map fun p => p.1.numD) (validCW.map fun p => wOf p.2) with
+        match reduceVals red (validCW.map fun p => p.1.numD) (validCW.map fun p => wOf p.2)
+            (cw.map fun p => wOf p.2) with
         | none => sentOut
         | some (.num n e) => if (Val.num n e).fits dtOut then .num n e else .poison
         | some v => v
